@@ -545,6 +545,68 @@ Section Main.
     unfold parse_data_type, type_toks, type_str. cbn. rewrite Hc. cbn. rewrite Ho0. reflexivity.
   Qed.
 
+  Lemma prim_cast : forall f d ts x t rest,
+      S d <= md -> targs t = [] ->
+      r0 f (S d) (ts ++ Tk TyAs "AS" :: type_toks t ++ tRP :: rest) = Val (x, Tk TyAs "AS" :: type_toks t ++ tRP :: rest) ->
+      r7 (S f) d (Tk TyCast "CAST" :: tLP :: ts ++ Tk TyAs "AS" :: type_toks t ++ tRP :: rest) = Val (GCast x (type_str t), rest).
+  Proof.
+    intros f d ts x [n a] rest Hd Ha Hr. cbn in Ha. subst a.
+    unfold r7, primary. cbn. unfold parse_cast. cbn.
+    rewrite PE_S. unfold expr_body. destruct (Nat.ltb_spec md (S d)); [lia|].
+    unfold r0, type_toks in Hr. cbn [targs tname app] in Hr. unfold type_toks. cbn [targs tname app].
+    rewrite Hr. reflexivity.
+  Qed.
+
+  (* a whole expression read by parseExpression (list items, arguments, CASE parts) *)
+  Lemma PE_item : forall e, All e -> forall (r : rho) f d rest,
+      ref_expr e = true -> length (render 0 r e ++ rest) < f -> S d + pdepth 0 r e <= md ->
+      stops 0 (cur rest) = true ->
+      PE f d (render 0 r e ++ rest) = Val (ast_of e, rest).
+  Proof.
+    intros e HA r f d rest Href Hlen Hdep Hst.
+    destruct f as [|f]; [lia|]. rewrite PE_S. unfold expr_body.
+    destruct (Nat.ltb_spec md (S d)); [lia|].
+    apply (use_child_direct e HA 0); [assumption|lia|lia| |exact Hst].
+    eapply stops_mono; [|exact Hst]. cbn. lia.
+  Qed.
+
+  Lemma in_list_ok : forall items, Forall All items -> forallb ref_expr items = true -> items <> [] ->
+      forall (r : rho) i f d acc rest n,
+        length (sep_by [tComma] (render_list render 0 r i items) ++ tRP :: rest) < f ->
+        S d + pdepth_list pdepth 0 r i items <= md ->
+        length (sep_by [tComma] (render_list render 0 r i items) ++ tRP :: rest) <= n ->
+        in_list (PE f) n d acc (sep_by [tComma] (render_list render 0 r i items) ++ tRP :: rest)
+        = Val (acc ++ map ast_of items, tRP :: rest).
+  Proof.
+    induction items as [|e tl IH]; intros HA Href Hne r i f d acc rest n Hlen Hdep Hn; [contradiction|].
+    inversion HA as [|? ? HAe HAtl]; subst. cbn [forallb] in Href. apply andb_prop in Href. destruct Href as [Hre Hrtl].
+    cbn [render_list pdepth_list] in *.
+    destruct tl as [|e2 tl'].
+    - cbn [render_list sep_by] in *.
+      destruct n as [|n]; [rewrite app_length in Hn; cbn [length] in Hn; lia|].
+      cbn [in_list]. rewrite (PE_item e HAe); [|assumption|assumption|lia|reflexivity].
+      cbn [rewrap bind cur]. cbn. reflexivity.
+    - remember (e2 :: tl') as tl2 eqn:Etl.
+      assert (Hsep : sep_by [tComma] (render 0 (sub r i) e :: render_list render 0 r (S i) tl2)
+                     = render 0 (sub r i) e ++ tComma :: sep_by [tComma] (render_list render 0 r (S i) tl2)).
+      { subst tl2. reflexivity. }
+      rewrite Hsep in *. rewrite <- app_assoc in *. cbn [app] in *.
+      rewrite app_length in Hlen, Hn. cbn [length] in Hlen, Hn.
+      destruct n as [|n]; [lia|].
+      cbn [in_list]. rewrite (PE_item e HAe); [|assumption| | |reflexivity].
+      + cbn [rewrap bind cur]. cbn [isT ty tty_eqb tty_code N.eqb Pos.eqb tComma]. cbn [advance].
+        rewrite IH; [|assumption|assumption|subst tl2; discriminate|lia|lia|lia].
+        rewrite <- app_assoc. reflexivity.
+      + rewrite app_length. cbn [length]. lia.
+      + lia.
+  Qed.
+
+  Lemma K2_in : forall f d lhs neg ts,
+      K2 f d lhs (not_toks neg ++ Tk TyIn "IN" :: tLP :: ts)
+      = (if isT (cur ts) TySelect || isT (cur ts) TyWith then Unmodelled
+         else do (vals, ts') <- in_list (PE f) (S (length ts)) d [] ts; Val (GIn lhs vals None neg, advance ts')).
+  Proof. intros f d lhs neg ts. unfold K2, cmp_tail. destruct neg; reflexivity. Qed.
+
   (* the sub-surface the theorem is proved for: everything in [ref_expr] except the productions listed in
      design/C03.md (list-valued nodes and data types with arguments) *)
   Fixpoint proved (e : mexpr) : bool :=
@@ -556,7 +618,9 @@ Section Main.
     | MBetween a _ lo hi => proved a && proved lo && proved hi
     | MLike a _ _ p => proved a && proved p
     | MCastOp a t => proved a && match targs t with [] => true | _ => false end
-    | MIn _ _ _ | MFunc _ _ _ | MCase _ _ _ | MCast _ _ | MTuple _ => false
+    | MCast a t => proved a && match targs t with [] => true | _ => false end
+    | MIn a _ items => proved a && forallb proved items
+    | MFunc _ _ _ | MCase _ _ _ | MTuple _ => false
     end.
 
   Ltac side :=
@@ -633,6 +697,29 @@ Section Main.
       rewrite rg_step by lia.
       rewrite (use_child_direct e IHe 4); [|assumption|side|side|reflexivity|reflexivity].
       cbn [bind fst snd Kg]. apply K2_is.
+    - (* [NOT] IN (list) *)
+      apply andb_prop in Hp; destruct Hp as [Hp1 Hp2].
+      apply andb_prop in Href; destruct Href as [Href Hr3]. apply andb_prop in Href; destruct Href as [Hr1 Hr2].
+      specialize (IHe Hp1).
+      assert (HAll : Forall All items).
+      { rewrite Forall_forall in *. intros x Hx. apply H; [exact Hx|]. rewrite forallb_forall in Hp2. apply Hp2. exact Hx. }
+      assert (Hne : items <> []) by (destruct items; [discriminate|discriminate]).
+      intros R HK. rewrite Kg_stop in HK by exact Hst. inversion HK; subst R. clear HK.
+      cbn [body]. repeat (rewrite <- app_assoc; cbn [app]).
+      rewrite rg_step by lia.
+      rewrite (use_child_direct e IHe 4); [|assumption|side; destruct neg; side|side|destruct neg; reflexivity|destruct neg; reflexivity].
+      cbn [bind fst snd Kg]. rewrite K2_in.
+      assert (Hhd : exists t tl, sep_by [tComma] (render_list render 0 rr 1 items) ++ tRP :: rest = t :: tl /\ starts t = true).
+      { destruct items as [|x tl]; [contradiction|]. cbn [render_list].
+        destruct (render_head x 0 (sub rr 1)) as (tk & tl0 & E & S1).
+        destruct tl as [|y tl']; cbn [render_list sep_by]; rewrite E; eexists _, _; (split; [reflexivity|exact S1]). }
+      destruct Hhd as (tk & tl0 & Ehd & Shd).
+      rewrite Ehd. cbn [cur]. rewrite (starts_not tk TySelect Shd eq_refl), (starts_not tk TyWith Shd eq_refl). cbn [orb].
+      rewrite <- Ehd.
+      rewrite in_list_ok; [|exact HAll|exact Hr3|exact Hne| | |lia].
+      + cbn [bind advance app]. reflexivity.
+      + side.
+      + side.
     - (* [NOT] BETWEEN *)
       apply andb_prop in Hp; destruct Hp as [Hp Hp3]. apply andb_prop in Hp; destruct Hp as [Hp1 Hp2].
       apply andb_prop in Href; destruct Href as [Href Hr3]. apply andb_prop in Href; destruct Href as [Hr1 Hr2].
@@ -671,6 +758,15 @@ Section Main.
       rewrite pdt_simple; [|exact Ha|split_stops Hst; assumption]. cbn [bind].
       erewrite chain_mono; [|exact E|side].
       cbn [bind]. exact HK.
+    - (* CAST(e AS type) *)
+      apply andb_prop in Hp; destruct Hp as [Hp1 Hp2]. apply andb_prop in Href; destruct Href as [Hr1 Hr2].
+      specialize (IHe Hp1).
+      assert (Ha : targs t = []) by (destruct (targs t); [reflexivity|discriminate]).
+      intros R HK. cbn [Kg] in HK. inversion HK; subst R. clear HK. cbn [rg body ast_of].
+      cbn [app]. repeat (rewrite <- app_assoc; cbn [app]).
+      destruct f as [|f]; [side|].
+      apply prim_cast; [side|exact Ha|].
+      apply (use_child_direct e IHe 0); [assumption|side|side|reflexivity|reflexivity].
   Qed.
 End Main.
 
